@@ -30,7 +30,7 @@ EXTRA_TB["C17"] = [
 ENGINE_TB = [
   "engine model: Model/Ast.v, Eval.v, Exec.v, Like.v, Num.v, Join.v mirror plsql.go / sort.go / join.go / functions.go aggregates (repaired code); sqlparser's grammar is an oracle: the harness renders the query AST to fully parenthesised SQL for the real engine and to a Coq term for the model",
   "numbers are Coq primitive floats (same IEEE-754 binary64 operations as Go's float64, computed by the VM); fmt %v of numbers per Base/Fmt.v on a stated class (else OutOfModel, counted); strings.ToLower on ASCII (generators use caseless non-ASCII runes only); regexp.QuoteMeta / '.' / '.*' semantics assumed as stated in Model/Like.v",
-  "sort.Slice is an oracle (any sorted permutation); the executable instance is a stable insertion sort; sha256 + json.Marshal fingerprint assumed injective (instance: identity + veqb)",
+  "sort.Slice is an oracle (any sorted permutation); the executable instance is a stable insertion sort; the sha256 fingerprint over the Go-syntax (%#v) text of a row is assumed injective (instance: identity + veqb)",
 ]
 for _p in ("C01", "C02", "C03", "C04", "C05", "C06", "C07", "C08"):
     EXTRA_TB[_p] = list(ENGINE_TB)
